@@ -3,7 +3,7 @@
    errors are fatal (an error returned from BeginBlock/EndBlock is turned into a
    panic by the multiplexer).  [Fatal] = the Go function returns an error. *)
 From Verif Require Import Lib.Base NoHalt.Model NoHalt.Proofs NoHalt.SeqProofs NoHalt.TallyProofs.
-From Verif Require Import Sched.Elect NoHalt.ElectProofs.
+From Verif Require Import Sched.Elect NoHalt.ElectProofs NoHalt.GovProofs.
 
 (* disburseFeesP never fails, for any fee total and any weights that pass
    ConsensusParameters.SanityCheck (not all three zero), proposer known or not *)
@@ -296,3 +296,41 @@ Theorem election_power_error_exactly :
     fill p ents (cand_seq_sh p ents perm_e cands sh) [] [] = None.
 Proof. exact election_power_error_iff. Qed.
 Print Assumptions election_power_error_exactly.
+
+(* ---- governance deposits ---- *)
+
+(* For ANY history of proposal submissions, parameter changes (the minimum deposit may go up
+   or down at any time) and proposal closings, starting from a state where the deposits pool
+   equals the recorded deposits of the open proposals: no closing ever asks the pool for more
+   than it holds, and the pool keeps being exactly the sum of the open proposals' deposits *)
+Theorem governance_deposits_total :
+  forall ops st, ginv st -> exists st', grun ops st = Ok st' /\ ginv st'.
+Proof. exact grun_ok. Qed.
+Print Assumptions governance_deposits_total.
+
+Theorem governance_deposits_initial_state : forall min, ginv (ginit min).
+Proof. exact ginit_inv. Qed.
+Print Assumptions governance_deposits_initial_state.
+
+(* one EndBlock: closing proposals whose recorded deposits are part of the pool pays out
+   exactly those deposits and leaves the rest *)
+Theorem governance_close_total :
+  forall pool deps rest,
+    pool = fold_right N.add rest deps ->
+    exists l, gov_close pool deps = Ok (l, rest) /\ map (fun x => fst (fst x)) l = deps.
+Proof. exact gov_close_ok. Qed.
+Print Assumptions governance_close_total.
+
+(* refunding the CURRENT minimum deposit instead of the recorded one is refuted: raising the
+   minimum while a proposal is open makes its closing fail (a halt), lowering it leaves money
+   behind *)
+Theorem governance_refund_of_current_minimum_refuted :
+  exists ops, grun_current_min ops (ginit 100) = Fatal /\
+              exists st, grun ops (ginit 100) = Ok st /\ g_pool st = 0.
+Proof. exact current_min_refund_refuted. Qed.
+Print Assumptions governance_refund_of_current_minimum_refuted.
+
+Theorem governance_refund_of_current_minimum_breaks_invariant :
+  exists ops st, grun_current_min ops (ginit 100) = Ok st /\ g_open st = [] /\ g_pool st <> 0.
+Proof. exact current_min_refund_breaks_invariant. Qed.
+Print Assumptions governance_refund_of_current_minimum_breaks_invariant.
